@@ -36,6 +36,38 @@ def _run_lens(stmts, lens, is_target=None):
     return "end", None
 
 
+def _run_lens_all(stmts, lens, is_target=None, forks=None):
+    """like _run_lens, but a test that is not a len() guard is followed both ways: the set of outcome kinds
+    ('return' / 'reject' / 'target' / 'end'); the tests that were followed both ways are appended to forks"""
+    outs = set()
+    for i, st in enumerate(stmts):
+        if is_target is not None and is_target(st):
+            outs.add("target")
+            return outs
+        if isinstance(st, ast.If):
+            v = eval_len_test(st.test, lens)
+            arms = [st.body if v else st.orelse] if v is not None else [st.body, st.orelse]
+            if v is None and forks is not None:
+                forks.append(st)
+            go_on = False
+            for arm in arms:
+                r = _run_lens_all(arm, lens, is_target, forks)
+                if "end" in r:
+                    go_on = True
+                outs |= r - {"end"}
+            if not go_on:
+                return outs
+            continue
+        if isinstance(st, ast.Return):
+            outs.add("return")
+            return outs
+        if isinstance(st, ast.Raise) or isinstance(st, ast.Assert) and isinstance(st.test, ast.Constant) and not st.test.value:
+            outs.add("reject")
+            return outs
+    outs.add("end")
+    return outs
+
+
 @rule("TOTAL-1", 16, "the case analysis of join_tails_and_exits covers every combination of one-or-more tails and exits")
 def total1(ctx) -> List[Ob]:
     out: List[Ob] = []
@@ -99,6 +131,17 @@ def total2(ctx) -> List[Ob]:
         kind_, node_ = _run_lens(body, {lst: n} if lst else {}, is_target=lambda st: st is stmt_c or any(a is st for a in A.ancestors(stmt_c)) and not isinstance(st, ast.If))
         v = True if kind_ == "target" else (None if kind_ == "unknown" else False)
         want = n >= 2
+        if v is None:
+            # a guard that is not about the number of exits: followed both ways
+            forks: list = []
+            kinds = _run_lens_all(body, {lst: n} if lst else {}, is_target=lambda st: st is stmt_c or any(a is st for a in A.ancestors(stmt_c)) and not isinstance(st, ast.If), forks=forks)
+            if kinds == {"target"}:
+                v = True
+            elif "target" not in kinds:
+                v = False
+            elif want and forks:
+                out.append(bad("TOTAL-2", fn.qualname, key, ctx.where(fn, forks[0]), f"with {key} the common exit is inserted only when '{A.unparse(forks[0].test)[:70]}' allows it: a graph with several exits for which it does not is left open (no unique exit, no common post-dominator for its branches)"))
+                continue
         if v is None:
             out.append(unresolved("TOTAL-2", fn.qualname, key, where, "guard of the insertion cannot be evaluated"))
         elif v == want:
@@ -218,6 +261,8 @@ def total3(ctx) -> List[Ob]:
                 where = ctx.where(fn, n)
                 if _is_narrowing(n.test):
                     out.append(ok("TOTAL-3", fn.qualname, key, where, "type-narrowing assertion (not a condition on the graph's shape)", nontrivial=False))
+                elif isinstance(n.test, ast.Constant) and n.test.value is False and _dead_else_arm(n):
+                    out.append(ok("TOTAL-3", fn.qualname, key, where, "in an arm of a chain whose tests are exhaustive (a test and its negation): the arm cannot run"))
                 else:
                     out.append(bad("TOTAL-3", fn.qualname, key, where, f"shape-dependent assertion '{A.unparse(n.test)[:60]}' reachable from restructure(): a closed CFG that violates it is rejected with AssertionError",
                                    ["call path: " + " -> ".join(f.qualname for f in (cg.path(roots[0], fn) or []))]))
